@@ -22,6 +22,7 @@ MODS = {
     "mproto": ("parser/src/matcher.rs", "mproto_h.rs", "matcher::verif_proto::"),
     "ffim": ("parser/src/ffi.rs", "ffim_h.rs", "ffi::verif_ffim::"),
     "pvalid": ("parser/src/earley/parser.rs", "pvalid_h.rs", "earley::parser::verif_valid::"),
+    "pspec": ("parser/src/earley/parser.rs", "pspec_h.rs", "earley::parser::verif_spec::"),
     "cproto": ("parser/src/constraint.rs", "cproto_h.rs", "constraint::verif_proto::"),
 }
 
@@ -70,6 +71,7 @@ HARNESSES = {
                    c11_fail=["p11_witness_must_fail"]),
     "mproto": dict(c18=["p18m_error_is_sticky", "p18m_consume_n1", "p18m_consume_n3", "p18m_after_stop", "p01m_try_consume_n2", "p01m_try_consume_n3"],
                    c18_fail=["mproto_witness_must_fail"]),
+    "pspec": dict(c11=["p11s_speculation_base0", "p11s_speculation_base2"], c11_fail=["p11s_witness_must_fail"]),
     "pvalid": dict(c01=["p01v_validate_t1_f0", "p01v_validate_t2_f0", "p01v_validate_t2_f1", "p01v_validate_t2_f2", "p01v_validate_t3_f1"],
                    c01_fail=["p01v_witness_must_fail"]),
     "ffim": dict(c17=["k17_4_tokens_n0", "k17_4_tokens_n1", "k17_4_tokens_n3", "k17_4_ff_out1_n0", "k17_4_ff_out1_n2", "k17_4_ff_out2_n1", "k17_4_ff_out2_n2", "k17_4_ff_out2_n3", "k17_4_mask_v33_d2", "k17_4_mask_v33_d1",
@@ -105,6 +107,16 @@ def slice_constraint_fns():
     src = open(os.path.join(REPO, "parser/src/constraint.rs")).read()
     fns = [fnslice.extract_fn(src, n, within="impl Constraint {") for n in CONSTRAINT_FNS]
     return fnslice.impl_block("impl Constraint", fns)
+
+
+PSPEC_FNS = ["run_speculative", "trie_started_inner", "trie_finished_inner", "pop_lexer_states", "lexer_state", "num_rows",
+             "assert_definitive_inner", "assert_definitive", "check_lexer_bytes_invariant"]
+
+
+def slice_pspec_fns():
+    src = open(os.path.join(REPO, "parser/src/earley/parser.rs")).read()
+    fns = [fnslice.extract_fn(src, n, within="impl ParserState {") for n in PSPEC_FNS]
+    return fnslice.impl_block("impl MockPS", fns)
 
 
 def slice_pvalid_fns():
@@ -355,6 +367,8 @@ def prepare(tag, mods):
             ov.write("parser/src/verif_matcher_fns.rs", slice_matcher_fns())
         if "cproto" in mods:
             ov.write("parser/src/verif_constraint_fns.rs", slice_constraint_fns())
+        if "pspec" in mods:
+            ov.write("parser/src/earley/verif_pspec_fns.rs", slice_pspec_fns())
         if "pvalid" in mods:
             ov.write("parser/src/earley/verif_pvalid_fns.rs", slice_pvalid_fns())
         if "ffim" in mods:
